@@ -165,7 +165,7 @@ let canon (w : (cmap, cmap, req, dstate) world) : (string * string) list =
     let kind = match p.p_details with PChange c -> "(change " ^ s_cm c ^ ")" | PRollback ri -> "(rollback " ^ sn ri ^ ")" in
     (Printf.sprintf "prop %d-%d" t i,
      Printf.sprintf "%s prev=%s next=%s rbi=%s rbv=%s init=%s val=%s com=%s app=%s abo=%s vf=%s af=%s term=%s" kind (sn p.p_prev) (sn p.p_next) (sn p.p_rbindex)
-       (match p.p_rbvalues with None -> "nil" | Some c -> s_cm c) (s_ph p.p_init) (s_ph p.p_validate) (s_ph p.p_commit) (s_ph p.p_apply) (s_ph p.p_abort)
+       (match p.p_rbvalues with None | Some [] -> "nil" | Some c -> s_cm c) (s_ph p.p_init) (s_ph p.p_validate) (s_ph p.p_commit) (s_ph p.p_apply) (s_ph p.p_abort)
        (s_ft p.p_vfail) (s_ft p.p_afail) (sn p.p_term)) in
   let cfgs = List.sort compare (List.map (fun (t, c) -> (int_of_n t, c)) (w_cfgs w)) in
   let s_c (t, c) =
@@ -607,6 +607,23 @@ let props_of_step (label : sx) (pre : istate) (crashed : bool) : string =
     | _ -> [ "C10"; "C04" ] in
   "[" ^ String.concat "," (List.sort_uniq compare (base @ [ "C07" ] @ (if crashed then [] else []))) ^ "]"
 
+let s_result = function
+  | RDone -> "done"
+  | RRequeueTx i -> "rqtx:" ^ sn i
+  | RRequeueProp (t, i) -> "rqprop:" ^ sn t ^ ":" ^ sn i
+  | RRetry -> "err"
+
+(* the result of a complete invocation (what is re-queued, error = retry) against the model's, for the oracle that explains the step *)
+let check_result id (label : sx) (pre : istate) dl (res : string) =
+  match ctrl_of label with
+  | Some (c, "all") when res <> "" && res <> "crash" && res <> "timeout" ->
+    let choices = match c with CtlMaster _ -> [ 0; 1; 2; 3 ] | _ -> [ 0 ] in
+    let rs = List.map (fun ch -> s_result (snd (p2_reconcile (oracle_of pre label dl ch) pre.w c))) choices in
+    if not (List.mem res rs) then
+      mismatch id (Printf.sprintf "%s result of %s: model=%s impl=%s" "[C07,C09]"
+                     (String.concat " " (List.map (function A a -> a | L _ -> "(..)") (lst label))) (String.concat "|" rs) res)
+  | _ -> ()
+
 let validate id (label : sx) (pre : istate) (post : istate) dl =
   let posts = model_posts pre label (Some post) dl in
   let ci = canon post.w in
@@ -655,6 +672,7 @@ let () =
        | Some pre ->
          seen_distinct (label_name label ^ "|" ^ String.concat ";" (List.map snd (canon pre.w)));
          validate id label pre post dl;
+         check_result id label pre dl res;
          monitors id label pre post dl;
          List.iter (fun (_, c) ->
            if s_cm (overlay c.c_inline c.c_values) <> s_cm c.c_values then stat "loaded_values_differ_from_committed_map";
@@ -665,7 +683,7 @@ let () =
       let h = hist_of id in
       let label = parse_sx label in
       stat ("noop." ^ label_name label);
-      ignore rest;
+      (match h.prev, rest with Some pre, r :: _ -> check_result id label pre [] r | _ -> ());
       (match h.prev with
        | Some pre ->
          (match lst label with
